@@ -46,7 +46,7 @@ def cases(tier, seed):
                 for (eq_type, dx) in EQS:
                     for it in ("none", "scale"):
                         for ot in ("none", "inputs", "param"):
-                            for shared in ((False, True, "int", "int-1") if o == 3 else (False,)):
+                            for shared in ((False, True, "int", "int-1", "int0") if o == 3 else (False,)):
                                 for bare in ((False, True) if (it == "none" and ot != "param") else (False,)):
                                     for tshape in (("0d", "1") if eq_type == "ODE" else ("1",)):
                                         i += 1
@@ -76,7 +76,7 @@ def cases(tier, seed):
         for hidden in ((2,), (3, 2)):
             for (eq_type, dx) in (("ODE", 0), ("statio_PDE", 2), ("nonstatio_PDE", 1)):
                 for o in (1, 2):
-                    for shared in ((False, True, "int") if o == 2 else (False,)):
+                    for shared in ((False, True, "int", "int0") if o == 2 else (False,)):
                         for (it, ot) in (("none", "none"), ("scale", "inputs"), ("scale", "none"), ("none", "inputs")):
                             out.append(dict(type="hyper", hp=hp, hidden=list(hidden), eq_type=eq_type, dx=dx, o=o, shared=shared, it=it, ot=ot, key=seed + 13))
     return out
@@ -127,6 +127,8 @@ def run_pinn(case):
         slices = (jnp.s_[0:2], jnp.s_[2])  # an integer selects one output; the component axis must survive
     if case["shared"] == "int-1":
         slices = (jnp.s_[0:2], jnp.s_[-1])  # the last output, counted from the end
+    if case["shared"] == "int0":
+        slices = (jnp.s_[0], jnp.s_[1:3])  # the integer 0 selects the first output
     us = jinns.utils.create_PINN(key, eqx_list(n_in, case["hidden"], o, case["act"]), eq_type, dx, input_transform=it, output_transform=ot, shared_pinn_outputs=slices)
     us = us if case["shared"] else [us]
     site = "PINN"
@@ -158,7 +160,7 @@ def run_pinn(case):
             elif case["ot"] == "param":
                 raw = raw * s + np.sum(raw)  # mixes the components: does not commute with the shared-output slice
             if case["shared"]:
-                raw = raw[[slice(0, 2), slice(2, 3)][ui]]
+                raw = raw[([slice(0, 1), slice(1, 3)] if case["shared"] == "int0" else [slice(0, 2), slice(2, 3)])[ui]]
             exp = np.atleast_1d(raw)
             got = np.asarray(got)
             if got.ndim != 1:
@@ -230,6 +232,8 @@ def run_hyper(case):
     slices = (jnp.s_[0:1], jnp.s_[1:2]) if case["shared"] else None
     if case["shared"] == "int":
         slices = (jnp.s_[0:1], jnp.s_[1])
+    if case["shared"] == "int0":
+        slices = (jnp.s_[0], jnp.s_[1:2])
     it = (lambda inp, p: inp * p.eq_params["c"]) if case.get("it") == "scale" else None
     ot = (lambda inp, out, p: out + jnp.sum(inp)) if case.get("ot") == "inputs" else None
     us = jinns.utils.create_HYPERPINN(key, eqx_list(n_in, case["hidden"], o, "tanh"), eq_type, hp, hsize, dx, input_transform=it, output_transform=ot,
